@@ -247,10 +247,10 @@ fn panic_message(p: Box<dyn std::any::Any + Send>) -> String {
 }
 
 /// Run grevm's Scheduler on a helper thread with a deadline (`FLATBLOCK_RUN_TIMEOUT_S`, default
-/// 20 s). A panic is caught and reported. On expiry the run is reported as a hang; the stuck
+/// 60 s; a block takes milliseconds, the margin is for a loaded machine). A panic is caught and reported. On expiry the run is reported as a hang; the stuck
 /// scheduler threads cannot be joined, so the driver then writes its summary and exits.
 fn run_timeout_secs() -> u64 {
-    std::env::var("FLATBLOCK_RUN_TIMEOUT_S").ok().and_then(|v| v.parse().ok()).unwrap_or(20)
+    std::env::var("FLATBLOCK_RUN_TIMEOUT_S").ok().and_then(|v| v.parse().ok()).unwrap_or(60)
 }
 fn run_grevm(
     db: DelayDb,
